@@ -33,5 +33,6 @@ Init == \/ \E at \in {p \in TruncPoints : p >= 0 /\ p < FileLen} : plan = [k |->
               /\ plan = [k |-> "flip", at |-> pos, how |-> h, field |-> "", cls |-> ""]
         \/ \E fld \in LieFields, c \in LieClasses : plan = [k |-> "lie", at |-> 0, how |-> "", field |-> fld, cls |-> c]
 Next == UNCHANGED plan
-Emit == (SampleK = 1 \/ plan.k # "flip" \/ RandomElement(1..SampleK) = 1) => PrintT(ToJson(plan))
+(* quick tiers take every SampleK-th corrupted byte position (deterministic, so recorded findings replay in every run) *)
+Emit == (SampleK = 1 \/ plan.k # "flip" \/ plan.at % SampleK = 0) => PrintT(ToJson(plan))
 =============================================================================
